@@ -656,10 +656,19 @@ void XMLFormatter::specialFormat(const  XMLCh* const    toFormat
 
     while (srcPtr < endPtr)
     {
+        //  A surrogate pair is one character: ask about its code point and
+        //  keep or refuse the two units together.
         const XMLCh* tmpPtr = srcPtr;
         while (tmpPtr < endPtr)
         {
-            if (fXCoder->canTranscodeTo(*tmpPtr))
+            if (((*tmpPtr & 0xFC00) == 0xD800) && (tmpPtr + 1 < endPtr)
+            &&  ((*(tmpPtr + 1) & 0xFC00) == 0xDC00))
+            {
+                if (!fXCoder->canTranscodeTo(0x10000 + ((*tmpPtr - 0xD800) << 10) + (*(tmpPtr + 1) - 0xDC00)))
+                    break;
+                tmpPtr += 2;
+            }
+            else if (fXCoder->canTranscodeTo(*tmpPtr))
                 tmpPtr++;
             else
                 break;
@@ -703,7 +712,15 @@ void XMLFormatter::specialFormat(const  XMLCh* const    toFormat
 
                 // Move up the source pointer and break out if needed
                 srcPtr++;
-                if (fXCoder->canTranscodeTo(*srcPtr))
+                if (srcPtr >= endPtr)
+                    break;
+                if (((*srcPtr & 0xFC00) == 0xD800) && (srcPtr + 1 < endPtr)
+                &&  ((*(srcPtr + 1) & 0xFC00) == 0xDC00))
+                {
+                    if (fXCoder->canTranscodeTo(0x10000 + ((*srcPtr - 0xD800) << 10) + (*(srcPtr + 1) - 0xDC00)))
+                        break;
+                }
+                else if (fXCoder->canTranscodeTo(*srcPtr))
                     break;
             }
         }
